@@ -1,3 +1,4 @@
 import MirGen.Tables
 import MirGen.Signatures
 import MirGen.EvalPrograms
+import MirGen.Effects
